@@ -109,6 +109,8 @@ class MaintenanceInfo:
         Prevent further modifications - used after the object is
         assigned to a property
         """
+        # the record keeps entries of its own from here on: the objects the caller passed to add() stay the caller's
+        self._nodes = {k: copy.copy(v) for k, v in self._nodes.items()}
         self._lock = True
 
     def add(self, name: str, minfo: MaintenanceEntry) -> None:
